@@ -322,6 +322,80 @@ pub mod marker {
     }
 }
 
+// ---------------------------------------------------------------- R-PROBE
+pub mod probe {
+    pub struct Slot {
+        pub mark: u64,
+        pub key: u32,
+        pub val: u32,
+    }
+    pub struct Table {
+        pub slots: Vec<Slot>,
+    }
+    impl Table {
+        pub fn remove(&mut self, key: u32, h: u64) -> bool {
+            let n = self.slots.len();
+            for i in 0..n {
+                let s = &mut self.slots[(h as usize + i) % n];
+                if s.mark == 0 {
+                    return false;
+                }
+                if s.mark == h && s.key == key {
+                    s.mark = u64::MAX;
+                    return true;
+                }
+            }
+            false
+        }
+        pub fn bad_insert(&mut self, key: u32, val: u32, h: u64) -> bool {
+            let n = self.slots.len();
+            for i in 0..n {
+                let s = &mut self.slots[(h as usize + i) % n];
+                if s.mark == 0 || s.mark == u64::MAX {
+                    s.mark = h;
+                    s.key = key;
+                    s.val = val;
+                    return true;
+                } else if s.mark == h && s.key == key {
+                    s.val = val;
+                    return true;
+                }
+            }
+            false
+        }
+        pub fn ok_insert(&mut self, key: u32, val: u32, h: u64) -> bool {
+            let n = self.slots.len();
+            let mut tomb: Option<usize> = None;
+            for i in 0..n {
+                let at = (h as usize + i) % n;
+                let s = &mut self.slots[at];
+                if s.mark == 0 {
+                    let s = &mut self.slots[tomb.unwrap_or(at)];
+                    s.mark = h;
+                    s.key = key;
+                    s.val = val;
+                    return true;
+                } else if s.mark == u64::MAX {
+                    if tomb.is_none() {
+                        tomb = Some(at);
+                    }
+                } else if s.mark == h && s.key == key {
+                    s.val = val;
+                    return true;
+                }
+            }
+            if let Some(at) = tomb {
+                let s = &mut self.slots[at];
+                s.mark = h;
+                s.key = key;
+                s.val = val;
+                return true;
+            }
+            false
+        }
+    }
+}
+
 // ---------------------------------------------------------------- R-VARIANT
 pub mod variant {
     pub enum Storage {
